@@ -62,7 +62,6 @@ from ..network.network import Network
 from ..settings import Settings
 from ..session import Session
 from ..tasks import BackgroundTask
-from ..utils import cancel_task
 
 
 logger = logging.getLogger(__name__)
@@ -563,7 +562,7 @@ class UserTrackingManager:
             if tracked_user.flags == TrackingFlag(0):
                 # Ensure retry does not get scheduled again if we no longer
                 # desire to track the user
-                await cancel_task(tracked_user.retry_task)
+                self._cancel_retry(tracked_user)
 
                 # Prevent RemoveUser from being called multiple times if there
                 # are multiple entries on the queue
@@ -611,6 +610,15 @@ class UserTrackingManager:
                     )
 
             request.handled.set()
+
+    def _cancel_retry(self, tracked_user: TrackedUser):
+        """Cancels a pending retry. The cancelled task is deliberately not
+        awaited: a cancellation of the tracking task itself (server closed)
+        arriving during such an await is indistinguishable from the awaited
+        task being cancelled and would be swallowed
+        """
+        if tracked_user.retry_task:
+            tracked_user.retry_task.cancel()
 
     async def _request_retry(self, tracked_user: TrackedUser, timeout: float):
         await asyncio.sleep(timeout)
@@ -666,7 +674,7 @@ class UserTrackingManager:
         if state == TrackingState.RETRY_PENDING:
             # Cancelling probably shouldn't be necessary but just doing
             # it for safety
-            await cancel_task(tracked_user.retry_task)
+            self._cancel_retry(tracked_user)
             tracked_user.retry_task = asyncio.create_task(
                 self._request_retry(tracked_user, retry_timeout))
 
